@@ -87,6 +87,7 @@ def kernel? (toks : List String) : Option (Ext → R Int) :=
   | ["var2h", nvalvar, nvalh, nbsec, rain, hstart, sec] => do
       let a ← I nvalvar; let b ← I nvalh; let c ← I nbsec; let d ← I rain; let h ← I hstart; let l ← L sec
       pure fun e => var2h e a b c d h (intsF l)
+  | ["isleapyear", y] => do let y ← I y; pure fun _ => isleapyear y
   | ["daysinmonth", m] => do let m ← I m; pure fun _ => daysinmonth m
   | ["dayofyear", m, d] => do let m ← I m; let d ← I d; pure fun _ => dayofyear m d
   | ["add1month", d] => do let l ← L d; pure fun e => add1month e (intsF l)
